@@ -11,7 +11,8 @@ RULE = ('FProg routines (scalars, arrays, counted/while loops incl. zero-trip, I
         'incl. none, function references) are interpreted on 4 input vectors with a trace; each generated statement/block is mapped to its loki '
         'node through the renderer line map; for every dynamic execution of the node: variables written (also inside callees, via argument '
         'association) must be in defines_symbols, variables read before any write to that variable within the node must be in uses_symbols, '
-        'variables written earlier in the routine execution or intent(in/inout) arguments must be in live_symbols. non-trivial = a mapped '
+        'variables written earlier in the routine execution or intent(in/inout) arguments must be in live_symbols; routines with CALLs are '
+        'judged a second time after stripping the link to the callees (un-enriched calls). non-trivial = a mapped '
         'block/call node some execution of which both reads and writes; distinct by case hash')
 ASSUMPTIONS = ['variable granularity (the analysis documents that it ignores data space): a partial array write counts as a write of the variable',
                'the DO variable of a loop is exempt (documented: the induction variable is not considered outside the loop)',
@@ -98,6 +99,19 @@ def header_exprs(s):
     return []
 
 
+def strip_enrichment(routine):
+    """replace, in place, the procedure symbol of every CALL by one without a link to the callee"""
+    from loki import FindNodes, Transformer
+    from loki.ir import nodes as ir
+    from loki.expression import symbols as sym
+    from loki.types import SymbolAttributes, ProcedureType
+    mapper = {}
+    for c in FindNodes(ir.CallStatement).visit(routine.body):
+        nm = str(c.name)
+        mapper[c] = c.clone(name=sym.ProcedureSymbol(nm, scope=None, type=SymbolAttributes(ProcedureType(nm))))
+    routine.body = Transformer(mapper, invalidate_source=False).visit(routine.body)
+
+
 def check_case(case, ctx):
     rendered = harness.render_case(case)
     dc.set_alias_map(case)
@@ -131,81 +145,90 @@ def check_case(case, ctx):
     dovars = dc.do_variables(case)
     kinds = set()
     nontrivial = False
+    recs = [(dc.Records(it.trace, fid), it.trace.frames[fid]['names']) for it, fid in runs]
+    has_calls = any(ent['kind'] == 'call' for ent in table.values())
     try:
-        with dataflow_analysis_attached(routine):
-            nodes = dc.map_nodes(routine, table)
-            ctx.count('mapped-nodes', len(nodes))
-            ctx.count('unmapped-statements', len(table) - len(nodes))
-            info = {}
-            for p, n in nodes.items():
-                info[p] = (names_of(n.defines_symbols), names_of(n.uses_symbols), names_of(n.live_symbols), type(n).__name__)
-            intent_in = {d['name'].lower() for d in case['entry']['args'] if d.get('intent') in ('in', 'inout')}
-            for it, fid in runs:
-                rec = dc.Records(it.trace, fid)
-                names = it.trace.frames[fid]['names']
-                explained = set()     # (ancestor path, set name, variable): a descendant already fails for it
-                # innermost statements first, so that a miss is attributed to the innermost node that shows it
-                for (p, nexec) in sorted(rec.order, key=lambda k: -k[0].count('.')):
-                    if p not in info:
-                        continue
-                    defines, uses, live, cls = info[p]
-                    ent = table[p]
-                    kinds.add(ent['kind'])
-                    wr = {nm for c in rec.writes[(p, nexec)] for nm in names.get(c, ())}
-                    us = {nm for c in rec.uses[(p, nexec)] for nm in names.get(c, ())}
-                    lv = {nm for c in rec.live_before[(p, nexec)] for nm in names.get(c, ())} | intent_in
-                    if ent['kind'] == 'do':
-                        wr.discard(ent['stmt'][1].lower())
-                    wr -= dovars      # induction variables: excluded by documented design
-                    if ent['kind'] != 'assign' and wr and us:
-                        nontrivial = True
+        # second pass: the same routine with the CALL statements stripped of the link to their callee ("un-enriched":
+        # loki must then assume that every argument is read and written)
+        for variant in (('enriched', 'unenriched') if has_calls else ('enriched',)):
+            if variant == 'unenriched':
+                strip_enrichment(routine)
+                ctx.count('unenriched-pass')
+            with dataflow_analysis_attached(routine):
+                nodes = dc.map_nodes(routine, table)
+                if variant == 'enriched':
+                    ctx.count('mapped-nodes', len(nodes))
+                    ctx.count('unmapped-statements', len(table) - len(nodes))
+                info = {}
+                for p, n in nodes.items():
+                    info[p] = (names_of(n.defines_symbols), names_of(n.uses_symbols), names_of(n.live_symbols), type(n).__name__)
+                intent_in = {d['name'].lower() for d in case['entry']['args'] if d.get('intent') in ('in', 'inout')}
+                for rec, names in recs:
+                    explained = set()     # (ancestor path, set name, variable): a descendant already fails for it
+                    # innermost statements first, so that a miss is attributed to the innermost node that shows it
+                    for (p, nexec) in sorted(rec.order, key=lambda k: -k[0].count('.')):
+                        if p not in info:
+                            continue
+                        defines, uses, live, cls = info[p]
+                        ent = table[p]
+                        kinds.add(ent['kind'])
+                        wr = {nm for c in rec.writes[(p, nexec)] for nm in names.get(c, ())}
+                        us = {nm for c in rec.uses[(p, nexec)] for nm in names.get(c, ())}
+                        lv = {nm for c in rec.live_before[(p, nexec)] for nm in names.get(c, ())} | intent_in
+                        if ent['kind'] == 'do':
+                            wr.discard(ent['stmt'][1].lower())
+                        wr -= dovars      # induction variables: excluded by documented design
+                        if ent['kind'] != 'assign' and wr and us:
+                            nontrivial = True
 
-                    def mark(setname, v):
-                        parts = p.split('.')
-                        for k in range(1, len(parts)):
-                            explained.add(('.'.join(parts[:k]), setname, v))
+                        def mark(setname, v):
+                            parts = p.split('.')
+                            for k in range(1, len(parts)):
+                                explained.add(('.'.join(parts[:k]), setname, v))
 
-                    def call_reason(v):
-                        st = ent['stmt']
-                        actuals = list(st[2]) + list((st[3] if len(st) > 3 and st[3] else {}).values())
-                        ints = callee_intents(case, st)
-                        bound = sorted({str(ints[k]) if k < len(ints) else '?' for k, a_ in enumerate(actuals) if v in vars_in(a_)})
-                        if not bound:
-                            return 'via-call:host-association-of-internal-procedure'
-                        # the intent of the dummy the variable is bound to (one value unless it is passed twice)
-                        return 'via-call:argument:dummy-intent=' + bound[0]
+                        def call_reason(v):
+                            st = ent['stmt']
+                            actuals = list(st[2]) + list((st[3] if len(st) > 3 and st[3] else {}).values())
+                            ints = callee_intents(case, st)
+                            bound = sorted({str(ints[k]) if k < len(ints) else '?' for k, a_ in enumerate(actuals) if v in vars_in(a_)})
+                            if not bound:
+                                return 'via-call:host-association-of-internal-procedure'
+                            if variant == 'unenriched':
+                                return 'via-call:argument-of-unenriched-call'
+                            # the intent of the dummy the variable is bound to (one value unless it is passed twice)
+                            return 'via-call:argument:dummy-intent=' + bound[0]
 
-                    for v in sorted(wr - defines):
-                        if (p, 'defines', v) in explained:
+                        for v in sorted(wr - defines):
+                            if (p, 'defines', v) in explained:
+                                mark('defines', v)
+                                continue
+                            reason = call_reason(v) if ent['kind'] == 'call' else 'not-reported'
+                            ctx.fail(f'C26:defines-misses-written-variable:{cls if ent["kind"] != "call" else "CallStatement"}:{reason}', case,
+                                     f'{p} ({cls}) wrote {v} but defines_symbols={sorted(defines)}; stmt={str(ent["stmt"])[:300]}')
                             mark('defines', v)
-                            continue
-                        reason = call_reason(v) if ent['kind'] == 'call' else 'not-reported'
-                        ctx.fail(f'C26:defines-misses-written-variable:{cls if ent["kind"] != "call" else "CallStatement"}:{reason}', case,
-                                 f'{p} ({cls}) wrote {v} but defines_symbols={sorted(defines)}; stmt={str(ent["stmt"])[:300]}')
-                        mark('defines', v)
-                    for v in sorted((us - dovars) - uses):
-                        if (p, 'uses', v) in explained:
+                        for v in sorted((us - dovars) - uses):
+                            if (p, 'uses', v) in explained:
+                                mark('uses', v)
+                                continue
+                            if ent['kind'] == 'call':
+                                reason = call_reason(v)
+                                sig = f'C26:uses-misses-read-variable:CallStatement:{reason}'
+                            elif dc.use_drop_cause(nodes[p], v) in ('may-define', 'definite-define'):
+                                # a child statement reports the use, an earlier sibling that defines v only on some paths
+                                # (or, not reachable at variable granularity, only partly) removed it from the block's set
+                                sig = 'C26:uses-misses-read-variable:block:may-define-kills-use'
+                            elif v in mem_query_args(header_exprs(ent['stmt'])):
+                                sig = 'C26:uses-misses-read-variable:variable-also-argument-of-size-lbound-ubound-query'
+                            else:
+                                sig = f'C26:uses-misses-read-variable:{cls}:not-reported'
+                            ctx.fail(sig, case,
+                                     f'{p} ({cls}) read {v} before writing it but uses_symbols={sorted(uses)}; stmt={str(ent["stmt"])[:300]}')
                             mark('uses', v)
-                            continue
-                        if ent['kind'] == 'call':
-                            reason = call_reason(v)
-                            sig = f'C26:uses-misses-read-variable:CallStatement:{reason}'
-                        elif dc.use_drop_cause(nodes[p], v) in ('may-define', 'definite-define'):
-                            # a child statement reports the use, an earlier sibling that defines v only on some paths
-                            # (or, not reachable at variable granularity, only partly) removed it from the block's set
-                            sig = 'C26:uses-misses-read-variable:block:may-define-kills-use'
-                        elif v in mem_query_args(header_exprs(ent['stmt'])):
-                            sig = 'C26:uses-misses-read-variable:variable-also-argument-of-size-lbound-ubound-query'
-                        else:
-                            sig = f'C26:uses-misses-read-variable:{cls}:not-reported'
-                        ctx.fail(sig, case,
-                                 f'{p} ({cls}) read {v} before writing it but uses_symbols={sorted(uses)}; stmt={str(ent["stmt"])[:300]}')
-                        mark('uses', v)
-                    for v in sorted(((lv & (wr | us)) - dovars) - live - defines):
-                        # only variables this node actually touches are compared (live sets are per-node snapshots)
-                        loop_ctx = '.b.' in p + '.'
-                        ctx.fail(f'C26:live-misses-variable:{cls}:{"inside-loop" if loop_ctx else "straight-line"}', case,
-                                 f'{p} ({cls}): {v} was written earlier / is intent(in/inout) but live_symbols={sorted(live)}')
+                        for v in sorted(((lv & (wr | us)) - dovars) - live - defines):
+                            # only variables this node actually touches are compared (live sets are per-node snapshots)
+                            loop_ctx = '.b.' in p + '.'
+                            ctx.fail(f'C26:live-misses-variable:{cls}:{"inside-loop" if loop_ctx else "straight-line"}', case,
+                                     f'{p} ({cls}): {v} was written earlier / is intent(in/inout) but live_symbols={sorted(live)}')
     except Exception as e:  # noqa: the analysis must be total on valid routines
         ctx.fail(f'C26:analysis-raises:{exc_bucket(e)}', case, repr(e)[:400])
     ctx.case(case, nontrivial, sorted(kinds))
